@@ -23,15 +23,17 @@ Theorem C09_fields_documented :
 Proof. exact fields_documented. Qed.
 Print Assumptions C09_fields_documented.
 
-(* net_io_counters(pernic=True), nowrap=False path end to end: for every list of interfaces whose
-   names are ANY bytes (':' '/' digits, non-ASCII, undecodable bytes, blanks inside) as long as the
-   name's str does not begin or end with a str blank and holds no line break, pairwise distinct,
-   and every 16 digit strings per interface, in the modern and in the old column format: every
-   listed interface, in kernel order, keyed by the str of its name, with the eight documented
-   fields taken from kernel columns 9,1,10,2,3,11,4,12; {} when nothing is listed *)
+(* net_io_counters(pernic=True), nowrap=False path end to end (code as of fix e02f4b0: first argument
+   legacy = false): for every list of interfaces whose names are ANY bytes (':' '/' digits,
+   non-ASCII, undecodable bytes, control characters, str blanks anywhere) as long as the name does
+   not begin or end with a space and holds no line break -- which includes every name the kernel
+   accepts, C09_net_kernel_names --, pairwise distinct, and every 16 digit strings per interface,
+   in the modern and in the old column format: every listed interface, in kernel order, keyed by
+   the str of its name, with the eight documented fields taken from kernel columns
+   9,1,10,2,3,11,4,12; {} when nothing is listed *)
 Theorem C09_net_pernic : forall sp l,
   wf_nics l = true ->
-  net_io_counters true (k_netdev sp l)
+  net_io_counters false true (k_netdev sp l)
   = XV (Val (RDict (map (fun i => (dec (n_name i), nt_nic (spec_nic i))) l))).
 Proof. exact net_pernic. Qed.
 Print Assumptions C09_net_pernic.
@@ -39,21 +41,26 @@ Print Assumptions C09_net_pernic.
 (* net_io_counters(pernic=False): the field-wise sum over all interfaces, None when nothing is listed *)
 Theorem C09_net_total : forall sp l,
   wf_nics l = true ->
-  net_io_counters false (k_netdev sp l)
+  net_io_counters false false (k_netdev sp l)
   = XV (Val (match l with [] => RNone | _ => RTuple (nt_nic (nic_sum (map spec_nic l))) end)).
 Proof. exact net_total. Qed.
 Print Assumptions C09_net_total.
 
-(* finding: the excluded class is not empty for the kernel -- dev_valid_name() accepts "eth0\x1f"
-   (0x1c-0x1f, like U+0085 or U+2003 in UTF-8, are no blanks for the kernel), str.strip() drops the
-   trailing U+001F and the interface is reported under the name "eth0" *)
-Theorem C09_net_name_strip_refuted :
+(* no class of kernel names is excluded: whatever dev_valid_name() of net/core/dev.c accepts
+   (1..15 bytes, not "." / "..", no '/', ':' or kernel isspace) satisfies the name condition *)
+Theorem C09_net_kernel_names : forall n, dev_valid_name n = true -> net_name_ok n = true.
+Proof. exact dev_valid_net_ok. Qed.
+Print Assumptions C09_net_kernel_names.
+
+(* fixed finding, legacy variant only (legacy = true: name = line[:colon].strip() before e02f4b0):
+   the kernel-valid name "eth0\x1f" -- inside the domain of the theorems above -- was reported as "eth0" *)
+Theorem C09_net_legacy_strip_refuted :
   exists i,
-    dev_valid_name (n_name i) = true /\ forallb is_dec (nic_counters i) = true /\
+    dev_valid_name (n_name i) = true /\ wf_nics [i] = true /\
     spec_net true [i] = RDict [(bs "eth0" ++ [31], nt_nic (spec_nic i))] /\
-    net_io_counters true (k_netdev true [i]) = XV (Val (RDict [(bs "eth0", nt_nic (spec_nic i))])).
-Proof. exact net_name_strip_refuted. Qed.
-Print Assumptions C09_net_name_strip_refuted.
+    net_io_counters true true (k_netdev true [i]) = XV (Val (RDict [(bs "eth0", nt_nic (spec_nic i))])).
+Proof. exact net_legacy_strip_refuted. Qed.
+Print Assumptions C09_net_legacy_strip_refuted.
 
 (* disk_io_counters(perdisk=True): every listed device (disks and partitions, whatever /sys/block
    holds; names any bytes whose str has no blank), nine documented fields, sectors x 512, for the
